@@ -499,7 +499,8 @@ func (c *FnCtx) sevCall(sc *specCtx, e *SExpr) *Term {
 		if !ok {
 			c.specErr(e, "no method %s on %s", callee.Name, recv.GoT)
 		}
-		if len(index) > 1 {
+		if on := ownerNamed(recv.GoT); len(index) > 1 && (on == nil || isRepoPkg(on.Obj().Pkg())) {
+			// (promoted methods of external types keep the outer receiver, as in code)
 			save := c.obls
 			recv = c.walkFieldPath(sc.st, recv, recv.GoT, index[:len(index)-1], nil)
 			c.obls = save
